@@ -159,13 +159,14 @@ Proof.
   destruct flt4; [rewrite Ed; reflexivity|]. rewrite Ed. apply p_remove_embed. exact Hn.
 Qed.
 
-Lemma cleanup_loop_embed ll total : forall files w idx,
+Lemma cleanup_loop_embed ll total cur : forall files w idx,
   (forall n, In n files -> ~ In n fnm /\ (ext_is n gz_sfx = true \/ ~ In (gz_name n) fnm)) ->
-  cleanup_loop (embedw w) files idx ll total = lw (cleanup_loop w files idx ll total).
+  cleanup_loop (embedw w) files idx ll total cur = lw (cleanup_loop w files idx ll total cur).
 Proof.
   induction files as [|n r IH]; intros w idx H; [reflexivity|]. cbn [cleanup_loop].
   destruct (H n (or_introl eq_refl)) as [Hn Hg].
   assert (Hr : forall m, In m r -> ~ In m fnm /\ (ext_is m gz_sfx = true \/ ~ In (gz_name m) fnm)) by (intros m Hm; apply H; right; exact Hm).
+  destruct (match cur with Some p => beq p n | None => false end); [apply IH; exact Hr|].
   assert (Hc : ext_is n gz_sfx = false -> compress_file (embedw w) n = lw (compress_file w n)).
   { intros E. apply compress_file_embed; [exact Hn|]. destruct Hg as [Hg|Hg]; [congruence | exact Hg]. }
   destruct (Nat.leb total idx).
@@ -378,7 +379,7 @@ Lemma cleanup_body_embed w ll total : fsfx (c_spec c) <> Some gz_sfx ->
    | Some files =>
      let '(ok0, w1', files') := remove_redundant w1 (redundant_gz files) files in
      if negb ok0 then (Err, w1') else
-     let '(ok, w2) := cleanup_loop w1' files' 0 ll total in
+     let '(ok, w2) := cleanup_loop w1' files' 0 ll total None in
      ((if ok then Ok tt else Err), w2)
    end)
   = lw (let '(fl, w1) := tick w in
@@ -388,7 +389,7 @@ Lemma cleanup_body_embed w ll total : fsfx (c_spec c) <> Some gz_sfx ->
         | Some files =>
           let '(ok0, w1', files') := remove_redundant w1 (redundant_gz files) files in
           if negb ok0 then (Err, w1') else
-          let '(ok, w2) := cleanup_loop w1' files' 0 ll total in
+          let '(ok, w2) := cleanup_loop w1' files' 0 ll total None in
           ((if ok then Ok tt else Err), w2)
         end).
 Proof.
@@ -401,10 +402,10 @@ Proof.
   destruct (remove_redundant w1 (redundant_gz files) files) as [[ok0 w1'] files'] eqn:Er.
   destruct ok0; cbn [negb]; [|reflexivity].
   rewrite cleanup_loop_embed by (intros n Hn; apply Hown; eapply remove_redundant_incl; eassumption).
-  destruct (cleanup_loop w1' files' 0 ll total) as [ok w2]. reflexivity.
+  destruct (cleanup_loop w1' files' 0 ll total None) as [ok w2]. reflexivity.
 Qed.
 
-Lemma cleanup_impl_embed w : cleanup_impl c (embedw w) kc IFNum false = lw (cleanup_impl c w kc IFNum false).
+Lemma cleanup_impl_embed w : cleanup_impl c (embedw w) kc IFNum None = lw (cleanup_impl c w kc IFNum None).
 Proof.
   destruct Hk as [->|[_ Hs]]; [reflexivity|].
   unfold cleanup_impl. destruct kc as [|a|b|a b]; [reflexivity| | |]; cbn [andb]; apply cleanup_body_embed; exact Hs.
@@ -432,7 +433,7 @@ Proof.
   destruct (roll_new w2 crit (c_append c) (name_of c w1 (Some cur_infix))) as [r3 w3]. cbn [lw fst snd].
   destruct r3 as [roll| |]; cbn [lw fst snd bind]; [|reflexivity|reflexivity].
   cbn [ns_filter naming_writes_direct]. rewrite !cleanup_match, cleanup_impl_embed, bg_false.
-  destruct (cleanup_impl c w3 kc IFNum false) as [r4 w4]. cbn [lw fst snd]. destruct r4; reflexivity.
+  destruct (cleanup_impl c w3 kc IFNum None) as [r4 w4]. cbn [lw fst snd]. destruct r4; reflexivity.
 Qed.
 
 (* the states of a writer with Numbers naming and the cleanup strategy kc (no cleanup thread) *)
@@ -448,7 +449,7 @@ Proof.
   destruct (index_for_rcurrent c w None (negb (c_append c))) as [[idx| |] w1]; cbn [bind]; try discriminate.
   destruct (open_log_file c w1 (Some cur_infix)) as [[[wr path]| |] w2]; cbn [bind]; try discriminate.
   destruct (roll_new w2 crit (c_append c) path) as [[roll| |] w3]; cbn [bind]; try discriminate.
-  rewrite cleanup_match, bg_false. destruct (cleanup_impl c w3 kc (ns_filter (NSNumR idx)) (naming_writes_direct NNumbers)) as [[u| |] w4];
+  rewrite cleanup_match, bg_false. destruct (cleanup_impl c w3 kc (ns_filter (NSNumR idx)) (if naming_writes_direct NNumbers then Some path else None)) as [[u| |] w4];
     cbn [bind]; try discriminate.
   intros H. injection H as <- _. cbn. split; [eauto | split; reflexivity].
 Qed.
@@ -475,7 +476,7 @@ Proof.
     by (destruct okf; [reflexivity | symmetry; apply report_embed]).
   rewrite w_drop_embed, reset_size_and_date_embed by exact Hn.
   unfold cleanup_or_queue. cbn [ns_filter ns_writes_direct]. rewrite cleanup_impl_embed.
-  destruct (cleanup_impl c (w_drop (if okf then w2a else report EFlush w2a) wra) kc IFNum false) as [rc w4]. reflexivity.
+  destruct (cleanup_impl c (w_drop (if okf then w2a else report EFlush w2a) wra) kc IFNum None) as [rc w4]. reflexivity.
 Qed.
 
 Lemma mount_next_good w st force r w' st' : good_inner st -> mount_next c w st force = (r, w', st') -> good_inner st'.
@@ -489,7 +490,7 @@ Proof.
   destruct (open_log_file c w1 (Some cur_infix)) as [[[wr' path']| |] w2];
     try (intros H; injection H as _ _ <-; cbn; split; [eauto | split; reflexivity]).
   destruct (w_flush w2 wr) as [[okf w2a] wra].
-  destruct (cleanup_or_queue c (w_drop (if okf then w2a else report EFlush w2a) wra) false kc (ns_filter (NSNumR idx')) (ns_writes_direct (NSNumR idx'))) as [rc w4].
+  destruct (cleanup_or_queue c (w_drop (if okf then w2a else report EFlush w2a) wra) false kc (ns_filter (NSNumR idx')) (if ns_writes_direct (NSNumR idx') then Some path' else None)) as [rc w4].
   intros H; injection H as _ _ <-; cbn; split; [eauto | split; reflexivity].
 Qed.
 
